@@ -79,6 +79,19 @@ pub fn term_set(tier: Tier) -> Vec<ATerm> {
         out.push(ATerm::triple(t.clone(), preds[0].clone(), ATerm::b("b")));
         out.push(ATerm::triple(ATerm::iri(iris[2]), preds[1].clone(), t.clone()));
     }
+    // the same atom sequence nested differently, and components of different kinds at the same position
+    let (a, b2, c, d, e) = (ATerm::iri(iris[2]), ATerm::iri(iris[0]), ATerm::iri(iris[3]), ATerm::iri(iris[0]), ATerm::iri(iris[5]));
+    out.push(ATerm::triple(ATerm::triple(a.clone(), b2.clone(), c.clone()), d.clone(), e.clone()));
+    out.push(ATerm::triple(a.clone(), b2.clone(), ATerm::triple(c.clone(), d.clone(), e.clone())));
+    out.push(ATerm::triple(a.clone(), b2.clone(), ATerm::var("v")));
+    out.push(ATerm::triple(ATerm::var("v"), b2.clone(), c.clone()));
+    // legal but non-canonical lexical forms next to the native integers 0, 1, 42, -7
+    for lex in ["042", "+42", "42", "-0", "00", "+1", "-07"] {
+        let t = ATerm::typed(lex, &format!("{XSD}integer"));
+        if !out.contains(&t) {
+            out.push(t);
+        }
+    }
     out
 }
 
